@@ -323,12 +323,32 @@ fn gen_statements(fields: &Fields, encoding: Encoding) -> syn::Result<proc_macro
             let tag  = decode_tag(&field.attrs);
             let name = &field.ident;
 
+            // A field which can be absent may be represented by a plain null, e.g. when written
+            // by a version of the type which does not know the field and fills the gap in an
+            // array. If the field has a tag, a null without that tag is therefore accepted as the
+            // absent value instead of being rejected for its missing tag.
+            let untagged_null =
+                if field.attrs.tag().is_some() {
+                    let ty  = &field.typ;
+                    let nil = nil(field);
+                    quote! {
+                        let __n777: core::option::Option<#ty> = #nil;
+                        __n777.is_some() && minicbor::data::Type::Null == __d777.datatype()?
+                    }
+                } else {
+                    quote!(false)
+                };
+
             quote! {{
-                #tag
-                match #decode_fn(__d777, __ctx777) {
-                    Ok(__v777) => #name = #value,
-                    #unknown_var_err
-                    Err(e) => return Err(e)
+                if { #untagged_null } {
+                    __d777.skip()?
+                } else {
+                    #tag
+                    match #decode_fn(__d777, __ctx777) {
+                        Ok(__v777) => #name = #value,
+                        #unknown_var_err
+                        Err(e) => return Err(e)
+                    }
                 }
             }}
     })
